@@ -85,7 +85,7 @@ func (impl Implementation) Dgehrd(n, ilo, ihi int, a []float64, lda int, tau, wo
 		panic(badLdA)
 	case lwork < max(1, n) && lwork != -1:
 		panic(badLWork)
-	case len(work) < lwork:
+	case len(work) < max(1, lwork):
 		panic(shortWork)
 	}
 
